@@ -70,8 +70,15 @@ func (c *Ctx) checkShapes(rule, fnKey string, f *ssa.Function, got map[string][]
 	}
 	sort.Strings(keys)
 	for _, slot := range keys {
-		g := got[slot]
-		w := want[slot]
+		// alternatives merged by control flow (phi(a | b)) denote the same set as a and b separately
+		var g, w []string
+		for _, x := range got[slot] {
+			g = append(g, expandAlts(x)...)
+		}
+		for _, x := range want[slot] {
+			w = append(w, expandAlts(x)...)
+		}
+		g, w = uniqSorted(g), uniqSorted(w)
 		ok := len(g) > 0
 		for _, s := range g {
 			found := false
